@@ -125,6 +125,24 @@ func runC13(s *core.Sim, tier string) RunInfo {
 		s.Aborted = "client start: " + err.Error()
 		return RunInfo{}
 	}
+	if s.Tape.Coin("exchange-restarted", 1, 5) {
+		// the same Exchange object is stopped and started again before it is asked
+		var rerr error
+		_, rfin := s.Do("exchange-restart", time.Minute, func() {
+			c, cancel := context.WithTimeout(context.Background(), 30*time.Second)
+			defer cancel()
+			if rerr = w.Ex.Stop(c); rerr == nil {
+				rerr = w.Ex.Start(c)
+			}
+		})
+		if !rfin || rerr != nil {
+			s.Violate("restart-error", nil, "Stop+Start of the same Exchange: finished=%v err=%v", rfin, rerr)
+			return RunInfo{Nontrivial: true, Evals: 1}
+		}
+		s.Quiesce(500 * time.Millisecond)
+		desc = append(desc, "Exchange restarted")
+		s.Probe("same-exchange-restarted")
+	}
 	if s.Tape.Coin("no-tracked-peers", 1, 4) {
 		// every connection is lost before the call: the peer tracker knows nobody, the trusted
 		// peers are dialled again by the request itself
